@@ -282,7 +282,7 @@ def refuse_snippet(kind, rng, g):
         'match-star': [f'match {a} & 3:', '    case [1, *rest]:', f'        {o}.{wr}(5)', '    case _:', f'        {o}.{wr}(2)'],
         'match-class': [f'match {a} & 3:', '    case int():', f'        {o}.{wr}(5)', '    case _:', f'        {o}.{wr}(2)'],
         'match-mapping': [f'match {a} & 3:', '    case {1: v}:', f'        {o}.{wr}(5)', '    case _:', f'        {o}.{wr}(2)'],
-        'match-guarded-wildcard': [f'match {a} & 3:', '    case 0:', f'        {o}.{wr}(7)', f'    case _ if {a} > 2:', f'        {o}.{wr}(5)',
+        'match-guarded-wildcard': [f'match {a} & 3:', '    case 0:', f'        {o}.{wr}(7)', f'    case _ if {a} > 0:', f'        {o}.{wr}(5)',
                                    '    case _:', f'        {o}.{wr}(2)'],
     }[kind]
 
